@@ -22,6 +22,7 @@ RULE = ("four kinds of generated cases on C03 systems with repeated molecule nam
 ASSUMPTIONS = ["a [ molecule ] block that also covers indices of other molecule names must leave those molecules "
                "untouched (and must not be rejected because of them)",
                "time-outs are inconclusive"]
+RULE += (' A third of the eligible -split cases supply (-c) and -ignore the molecules of the first [ molecules ] line: they are split like all others.')
 BUDGET = {"quick": (16, 90), "thorough": (16, 1200)}
 
 
